@@ -23,11 +23,13 @@ EXPLANATION = (
     "mixture is exactly [(w_k(p) p_i, P_k T_i)] with the SAME weights and the SAME Paulis (row-wise sign flips by the "
     "Pauli-algebra oracle), total weight equal; p = 0 reproduces the input exactly. CompilerBase.compile on one-operation "
     "circuits: noise placed before/after the gate is applied in that order, and with an empty map / NoNoise / "
-    "noise_simulation switched off the result is identical to the noiseless compile.")
+    "noise_simulation switched off the result is identical to the noiseless compile. `DmNoiseShared`: ONE noise object applied "
+    "to two different qubits in turn gives the composition of the two channels (no state carried between calls); strength on a "
+    "concrete grid, rho symbolic.")
 ASSUMPTIONS = ["A1 z3 sound (NRA: any `unknown` makes the run inconclusive)", "A2 numpy object-array semantics",
                "A4 exact rational arithmetic for float constants; sqrt modelled exactly",
                "rho ranges over Hermitian matrices with diag in [0,1], |off-diagonal parts| <= 1 (superset of density matrices); p in [0,1]"]
-BOUNDS = {"quick": {"dm": "n<=2, every target qubit", "stabilizer mixture": "n<=2"}, "thorough": {"dm": "n<=3", "stabilizer mixture": "n<=2, two-component mixtures"}}
+BOUNDS = {"quick": {"dm": "n<=2, every target qubit; shared noise object: n=2, both qubit orders, p in {0.1, 0.45, 1} (n<=3 thorough)", "stabilizer mixture": "n<=2"}, "thorough": {"dm": "n<=3", "stabilizer mixture": "n<=2, two-component mixtures"}}
 OUTSIDE = ("PSD as such (implied by the Kraus form, not encoded); all circuits x all maps beyond one-operation circuits (composition "
            "rests on C01's induction); assign_noise/_noisy_gates/_identify_noise map plumbing and Monte-Carlo noise; equal fidelity "
            "of the two results follows from the decomposition equality plus C05 and is not separately computed")
@@ -100,6 +102,46 @@ class DmNoise(Harness):
             tr_in = tr_in + D.real_part(rho[i][i])
         surv = (1 - p) if self.model == "loss" else 1
         S.prove("trace-is-survival-times-input-trace", D.close(tr_got, surv * tr_in, 1e-9))
+
+
+class DmNoiseShared(DmNoise):
+    """ONE noise-model object applied first to qubit q and then to qubit q2 != q of a symbolic rho (as circuits do when
+    the same object is attached to several gates, and as the compiler does with `[op.noise] * 2` for a controlled gate):
+    the result must be the composition of the two single-qubit channels -- no state may be carried from the first call
+    to the second.  Strength on a concrete grid (so that a model may use it as a dictionary key), rho fully symbolic."""
+    weight = 25
+
+    def body(self, S, spec):
+        import graphiq.noise.noise_models as nm
+
+        n, q, q2 = self.n, self.q, self.q2
+        p = float(self.pval)
+        rho = rho_cells(spec["rho"])
+        qs = dm_state(spec["rho"].copy(), n)
+        N = 1 << n
+        if self.model == "depolarizing":
+            noise = nm.DepolarizingNoise(p)
+
+            def chan(r, qq):
+                t = [D.apply_1q(r, g, qq, n) for g in ("X", "Y", "Z")]
+                return [[(1 - p) * r[i][j] + (p / 3) * (t[0][i][j] + t[1][i][j] + t[2][i][j]) for j in range(N)] for i in range(N)]
+        elif self.model == "loss":
+            noise = nm.PhotonLoss(p)
+
+            def chan(r, qq):
+                return [[(1 - p) * r[i][j] for j in range(N)] for i in range(N)]
+        else:
+            g = self.model[-1]
+            noise = nm.PauliError(g)
+
+            def chan(r, qq):
+                return D.apply_1q(r, g, qq, n)
+        noise.apply(qs, n, [q])
+        noise.apply(qs, n, [q2])
+        want = chan(chan(rho, q), q2)
+        got = rho_cells(qs.rep_data.data)
+        for k, c in enumerate(D.matrix_close(got, want, 1e-9)):
+            S.prove(f"composed-channel-entry[{k}]", c)
 
 
 class StabNoise(Harness):
@@ -308,6 +350,11 @@ def plan(tier):
         for qq in range(n):
             for pval in (0.0, 0.25, 0.6, 1.0):
                 jobs.append((DmNoise(n=n, q=qq, model="depolarizing2", pval=pval), {}))
+    for n in ([2] if q else [2, 3]):
+        for qa, qb in itertools.permutations(range(n), 2):
+            for model, pvals in (("depolarizing", (0.1, 0.45, 1.0)), ("pauliX", (0.0,)), ("pauliY", (0.0,)), ("loss", (0.3,))):
+                for pval in pvals:
+                    jobs.append((DmNoiseShared(n=n, q=qa, q2=qb, model=model, pval=pval), {}))
     for n in ([1, 2] if q else [1, 2]):
         for qq in range(n):
             for model in ("depolarizing", "pauliX", "pauliY", "pauliZ", "pauliI", "loss"):
